@@ -2,3 +2,4 @@ import HvProps.C05
 import HvProps.C08
 import HvProps.C04
 import HvProps.C06
+import HvProps.C03
